@@ -296,12 +296,16 @@ mod if_alloc {
     pub mod shared {
         use super::*;
         use crate::channel::shared::ChannelReceiveFuture;
+        use core::sync::atomic::{AtomicUsize, Ordering};
 
         struct GenericOneshotChannelSharedState<MutexType, T>
         where
             MutexType: RawMutex,
             T: 'static,
         {
+            /// The amount of [`GenericOneshotBroadcastReceiver`] instances which
+            /// reference this state.
+            receivers: AtomicUsize,
             channel: GenericOneshotBroadcastChannel<MutexType, T>,
         }
 
@@ -366,6 +370,11 @@ mod if_alloc {
             T: Clone + 'static,
         {
             fn clone(&self) -> Self {
+                let old_size =
+                    self.inner.receivers.fetch_add(1, Ordering::Relaxed);
+                if old_size > (core::isize::MAX) as usize {
+                    panic!("Reached maximum refcount");
+                }
                 Self {
                     inner: self.inner.clone(),
                 }
@@ -412,8 +421,10 @@ mod if_alloc {
             T: Clone,
         {
             fn drop(&mut self) {
-                // TODO: This is broken, since it will already close the channel if only one receiver is closed.
-                // We need to count receivers, as in mpmc queue.
+                if self.inner.receivers.fetch_sub(1, Ordering::Release) != 1 {
+                    return;
+                }
+                core::sync::atomic::fence(Ordering::Acquire);
                 // Close the channel, before last receiver gets destroyed
                 // TODO: We could potentially avoid this, if no sender is left
                 self.inner.channel.close();
@@ -437,6 +448,7 @@ mod if_alloc {
         {
             let inner =
                 alloc::sync::Arc::new(GenericOneshotChannelSharedState {
+                    receivers: AtomicUsize::new(1),
                     channel: GenericOneshotBroadcastChannel::new(),
                 });
 
